@@ -96,6 +96,10 @@ def h_hostile(ex, srcs, gaps, phase='fresh', length=8, dll='j1939-21'):
         if phase in ('in_mid', 'in_bam'):
             w.inject(n, tp21.can_id(7, 0xEB, 255 if phase == 'in_bam' else S, P), tp21.dt(1, [(j * 5) % 256 for j in range(own_L)]))
             w.run(until=w.now + T('1/100'))
+    elif phase == 'bam':
+        # an own broadcast (5 packets, 50 ms apart) is running when the traffic starts
+        st.ca.send_pgn(0, 0xFE, 0x33, 6, [(j * 3) % 256 for j in range(own_L)])
+        w.run(until=w.now + T('6/100'))
     elif phase != 'fresh':
         r = st.ca.send_pgn(0, MSG_PF, P, 6, [(j * 3) % 256 for j in range(own_L)])
         w.run(until=w.now + T('1/100'))
@@ -172,6 +176,8 @@ def jobs(tier):
         J(srcs=[P], gaps=['0'], phase=ph, length=3)
         J(srcs=[P], gaps=['0'], phase=ph, length=0)
     pairs = [('0',), ('0.76s',), ('1.26s',)] if q else [(g,) for g in GAPS]
+    for src in ((P, 255) if q else (P, S, 0x42, 254, 255)):
+        J(srcs=[src], gaps=['0'], phase='bam')
     for ph in ('in_rts', 'in_mid', 'in_bam'):
         for src in ((P,) if q else (P, S, 0x42, 255)):
             J(srcs=[src], gaps=['0'], phase=ph)
@@ -195,7 +201,7 @@ def jobs(tier):
 def meta(tier):
     return {
         'bounds': ['J1939-21: sequences of 1..2 hostile frames; per frame priority, PDU format (all 256), destination (all 256) and all data bytes (every control byte, size, packet, sequence, PGN field) symbolic; source address from {0x42, own 0x20, 254, 255}; data length 8 (and 0, 3 for single frames)',
-                   'stack state when the traffic starts: fresh / own 5-packet transfer after RTS / after the first CTS window / after all packets (waiting for the acknowledgement) / inbound 5-packet session after its RTS / after its first packet / inbound BAM after its first packet',
+                   'stack state when the traffic starts: fresh / own 5-packet transfer after RTS / after the first CTS window / after all packets (waiting for the acknowledgement) / own BAM running / inbound 5-packet session after its RTS / after its first packet / inbound BAM after its first packet',
                    'gap before the second frame from ' + ('{0, 0.76 s, 1.26 s}' if tier == 'quick' else str(sorted(GAPS))),
                    'delivery before / after a pending job pass explored (interleaving model)',
                    'afterwards: 6.5 s + 6 s of silence, a one-shot timer, scripted well-formed transfers in both directions on the pair the traffic used',
